@@ -211,6 +211,7 @@ def run(tier):
     # an erroneous operand inside every expression form: its diagnostic must survive (an operand whose type is
     # unknown makes the enclosing form fail without a diagnostic of its own)
     forms = ["cast q", "q as u8", "-q", "!q", "(q)", "q + 1", "1 + q", "q[0]", "arr[q]", "f(q)", "f(cast q)", "[q, 1]", "S { m: q }", "|q|", "&q", "cast &q", "q.m", "(cast q) as u8", "f(-q)"]
+    forms += [f_.replace("q", alt) for f_ in ("arr[q]", "q + 1", "f(q)", "[q, 1]", "S { m: q }", "-q", "q as u8", "arr[arr[q]]", "|arr2[q]|") for alt in ("missing(1)", "f(1, 2)", "|:[:]u8|", "f()", "f(true)")]
     for kq, form in enumerate(forms):
         for ctx in ("var p: &u8 = %s;", "var p = %s;", "p2 = %s;", "f(%s);", "if %s == 1\n\t{\n\t}"):
             cases.append(("eo%d.%d" % (kq, len(cases)), "struct S\n{\n\tm: i32,\n}\nfn f(x: i32) -> i32\n{\n\treturn: x\n}\nfn main()\n{\n\tvar arr: [2]i32 = [1, 2];\n\tvar p2: i32 = 0;\n\t%s\n}\n" % (ctx % form), "erroneous-operands"))
